@@ -1,53 +1,43 @@
-(* Second half of the tie between src/blend.rs and Model/Blend.v (see BlendGenBase.v): the wrapper,
-   the baselines, the HSL float code, the dispatch on the mode id, and the property theorems restated
-   for the generated functions.  Not part of _CoqProject (compiled by tools/gencheck.py). *)
+(* The colour side of the tie between src/blend.rs and Model/Blend.v: the generated channel functions, the soft-light,
+   addition and subtract baselines equal the model's; with BlendGenEqHsl.v this gives GEN_tie (generated blend = model blend
+   for every mode id) and C03 for the generated code.  Not part of _CoqProject (compiled by the C03 check). *)
 From Ase Require Import Base.Prelude Model.Blend Gen.RustSem Proofs.BlendArith Proofs.BlendLaws.
 From AseGen Require BlendGen.
-From AseGen Require Import BlendGenBase.
+From AseGen Require Import BlendGenBase BlendGenTotal BlendGenStruct BlendGenEqHsl.
 From Coq Require Import Floats ZifyBool.
 Ltac Zify.zify_post_hook ::= Z.div_mod_to_equations.
 
 (* ------------------------------------------------------------------ *)
-(* the wrapper and the baselines *)
+(* the separable channel functions equal the model's: complete 256 x 256 sweeps *)
 
-Definition pix_eq (f g : pixel -> pixel -> Z -> option pixel) : Prop :=
-  forall b s o, pix_wf b -> pix_wf s -> is_byte o -> f b s o = g b s o.
+(* soft light: the model returns the i32 directly; 65 536 float evaluations on each side *)
+Lemma gen_blend_soft_light : chan_eq BlendGen.blend_soft_light (fun b s => Some (blend_soft_light b s)).
+Proof. unfold chan_eq. apply chan_agree_sound. vm_compute. reflexivity. Qed.
+Lemma gen_blend_multiply : chan_eq BlendGen.blend_multiply blend_multiply.
+Proof. unfold chan_eq. apply chan_agree_sound. vm_compute. reflexivity. Qed.
+Lemma gen_blend_screen : chan_eq BlendGen.blend_screen blend_screen.
+Proof. unfold chan_eq. apply chan_agree_sound. vm_compute. reflexivity. Qed.
+Lemma gen_blend_overlay : chan_eq BlendGen.blend_overlay blend_overlay.
+Proof. unfold chan_eq. apply chan_agree_sound. vm_compute. reflexivity. Qed.
+Lemma gen_blend_darken : chan_eq BlendGen.blend_darken blend_darken.
+Proof. unfold chan_eq. apply chan_agree_sound. vm_compute. reflexivity. Qed.
+Lemma gen_blend_lighten : chan_eq BlendGen.blend_lighten blend_lighten.
+Proof. unfold chan_eq. apply chan_agree_sound. vm_compute. reflexivity. Qed.
+Lemma gen_blend_color_dodge : chan_eq BlendGen.blend_color_dodge blend_color_dodge.
+Proof. unfold chan_eq. apply chan_agree_sound. vm_compute. reflexivity. Qed.
+Lemma gen_blend_color_burn : chan_eq BlendGen.blend_color_burn blend_color_burn.
+Proof. unfold chan_eq. apply chan_agree_sound. vm_compute. reflexivity. Qed.
+Lemma gen_blend_hard_light : chan_eq BlendGen.blend_hard_light blend_hard_light.
+Proof. unfold chan_eq. apply chan_agree_sound. vm_compute. reflexivity. Qed.
+Lemma gen_blend_difference : chan_eq BlendGen.blend_difference blend_difference.
+Proof. unfold chan_eq. apply chan_agree_sound. vm_compute. reflexivity. Qed.
+Lemma gen_blend_exclusion : chan_eq BlendGen.blend_exclusion blend_exclusion.
+Proof. unfold chan_eq. apply chan_agree_sound. vm_compute. reflexivity. Qed.
+Lemma gen_blend_divide : chan_eq BlendGen.blend_divide blend_divide.
+Proof. unfold chan_eq. apply chan_agree_sound. vm_compute. reflexivity. Qed.
 
-Lemma pix_alpha_proj (p : pixel) : (let '(_, _, _, p3) := p in p3) = pix_alpha p.
-Proof. destruct p as [[[? ?] ?] ?]. reflexivity. Qed.
-
-Lemma obind_ret {A} (x : option A) : obind x (fun t => Some t) = x.
-Proof. destruct x; reflexivity. Qed.
-
-Lemma gen_blender fg fm : baseline_ok fm -> pix_eq fg fm ->
-  pix_eq (fun b s o => BlendGen.blender b s o fg) (blender fm).
-Proof.
-  intros Hok Hf b s o Hb Hs Ho. unfold BlendGen.blender, blender.
-  rewrite !pix_alpha_proj, !obind_ret, !gen_normal, Hf by assumption.
-  destruct (negb (pix_alpha b =? 0)); [|reflexivity].
-  destruct (normal b s o) as [n|] eqn:Hn; cbn [obind]; [|reflexivity].
-  destruct (fm b s o) as [x|] eqn:Hx; cbn [obind]; [|reflexivity].
-  pose proof (normal_wf_out _ _ _ _ Hb Hn) as Hnwf.
-  destruct (Hok _ _ _ _ Hx) as (s' & _ & Hn').
-  pose proof (normal_wf_out _ _ _ _ Hb Hn') as Hxwf.
-  pose proof (pix_alpha_byte b Hb) as Hba. pose proof (pix_alpha_byte s Hs) as Hsa.
-  rewrite gen_merge by assumption. cbn [obind].
-  rewrite gen_mul_un8_byte by assumption. cbn [obind].
-  rewrite gen_mul_un8_byte by auto using mul_un8_byte. cbn [obind].
-  rewrite gen_merge by (auto using merge_wf, mul_un8_byte). reflexivity.
-Qed.
-
-Lemma gen_blend_channel fg fm : chan_eq fg fm ->
-  pix_eq (fun b s o => BlendGen.blend_channel b s o fg) (blend_channel fm).
-Proof.
-  intros Hf [[[br bg] bb] ba] [[[sr sg] sb] sa] o Hb Hs Ho.
-  pose proof Hb as (Hbr & Hbg & Hbb & Hba). pose proof Hs as (Hsr & Hsg & Hsb & Hsa).
-  unfold BlendGen.blend_channel, blend_channel. rewrite !gen_as_rgba_i32. cbn [obind].
-  destruct (Hf br sr Hbr Hsr) as [-> Hr]. destruct (fm br sr) as [r|]; cbn [obind]; [|reflexivity].
-  destruct (Hf bg sg Hbg Hsg) as [-> Hg]. destruct (fm bg sg) as [g|]; cbn [obind]; [|reflexivity].
-  destruct (Hf bb sb Hbb Hsb) as [-> Hb']. destruct (fm bb sb) as [b'|]; cbn [obind]; [|reflexivity].
-  rewrite obind_ret. apply gen_normal; cbn [pix_wf]; auto.
-Qed.
+(* ------------------------------------------------------------------ *)
+(* the baselines *)
 
 Lemma gen_soft_light_baseline : pix_eq BlendGen.soft_light_baseline soft_light_baseline.
 Proof.
@@ -81,93 +71,6 @@ Proof.
   destruct (from_rgba_i32 _ _ _ sa) as [s'|] eqn:E; cbn [obind]; [|reflexivity].
   rewrite obind_ret. apply gen_normal; try assumption. apply from_rgba_i32_inv in E. tauto.
 Qed.
-
-(* ------------------------------------------------------------------ *)
-(* the HSL float code: the same IEEE operations in the same order (no rounding argument is needed:
-   both sides are the same term up to the plumbing of tuples, arrays and the option monad) *)
-
-Lemma rs_i2f_nonneg z : 0 <= z -> rs_i2f z = f_of_Z z.
-Proof. intros H. unfold rs_i2f. destruct (z <? 0) eqn:E; [lia|reflexivity]. Qed.
-
-Lemma gen_as_rgb_f64 p : pix_wf p -> BlendGen.as_rgb_f64 p = Some (as_rgb_f64 p).
-Proof.
-  destruct p as [[[r g] b] a]. intros (Hr & Hg & Hb & Ha).
-  unfold BlendGen.as_rgb_f64, as_rgb_f64. rewrite !rs_i2f_nonneg by (unfold is_byte in *; lia). reflexivity.
-Qed.
-
-Lemma gen_luminosity r g b : BlendGen.luminosity r g b = Some (luminosity (r, g, b)).
-Proof. reflexivity. Qed.
-
-Lemma gen_saturation r g b : BlendGen.saturation r g b = Some (saturation (r, g, b)).
-Proof. reflexivity. Qed.
-
-Lemma gen_clip_color r g b : BlendGen.clip_color r g b = Some (clip_color (r, g, b)).
-Proof.
-  unfold BlendGen.clip_color, clip_color. rewrite gen_luminosity. cbn [obind].
-  unfold rs_fmin, rs_fmax.
-  destruct (PrimFloat.ltb (fmin r (fmin g b)) 0); cbn [obind];
-    match goal with |- context [PrimFloat.ltb 1 ?m] => destruct (PrimFloat.ltb 1 m) end; reflexivity.
-Qed.
-
-Lemma gen_set_luminocity r g b l : BlendGen.set_luminocity r g b l = Some (set_luminocity (r, g, b) l).
-Proof.
-  unfold BlendGen.set_luminocity, set_luminocity. rewrite gen_luminosity. cbn [obind].
-  rewrite gen_clip_color. reflexivity.
-Qed.
-
-Lemma gen_static_sort3_orig r g b : BlendGen.static_sort3_orig r g b = Some (static_sort3_orig (r, g, b)).
-Proof.
-  unfold BlendGen.static_sort3_orig, static_sort3_orig, rs_fmin, rs_fmax.
-  repeat match goal with |- context [if ?c then _ else _] =>
-    match c with PrimFloat.ltb _ _ => destruct c end end; reflexivity.
-Qed.
-
-Lemma sort3_indices r g b : let '(mn, md, mx) := static_sort3_orig (r, g, b) in
-  (mn = 0 \/ mn = 1 \/ mn = 2) /\ (md = 0 \/ md = 1 \/ md = 2) /\ (mx = 0 \/ mx = 1 \/ mx = 2).
-Proof.
-  unfold static_sort3_orig.
-  repeat match goal with |- context [if ?c then _ else _] =>
-    match c with PrimFloat.ltb _ _ => destruct c end end; lia.
-Qed.
-
-Lemma gen_set_saturation r g b sat : BlendGen.set_saturation r g b sat = Some (set_saturation (r, g, b) sat).
-Proof.
-  unfold BlendGen.set_saturation, set_saturation. rewrite gen_static_sort3_orig. cbn [obind].
-  pose proof (sort3_indices r g b) as H. destruct (static_sort3_orig (r, g, b)) as [[mn md] mx].
-  destruct H as (Hmn & Hmd & Hmx).
-  destruct Hmn as [ -> | [ -> | -> ] ], Hmd as [ -> | [ -> | -> ] ], Hmx as [ -> | [ -> | -> ] ];
-    cbn [arr3_get arr3_set obind col_get col_set Z.eqb Pos.eqb];
-    match goal with |- context [if ?c then _ else _] =>
-      match c with PrimFloat.ltb _ _ => destruct c end end; reflexivity.
-Qed.
-
-Lemma gen_from_rgb_f64 r g b a : BlendGen.from_rgb_f64 r g b a = from_rgb_f64 (r, g, b) a.
-Proof. unfold BlendGen.from_rgb_f64, from_rgb_f64. rewrite gen_from_rgba_i32, obind_ret. reflexivity. Qed.
-
-Ltac hsl_step := first
-  [ rewrite gen_as_rgb_f64 by assumption | rewrite gen_saturation | rewrite gen_luminosity
-  | rewrite gen_set_saturation | rewrite gen_set_luminocity | rewrite gen_from_rgb_f64
-  | rewrite pix_alpha_proj | rewrite obind_ret | progress cbn [obind]
-  | match goal with |- context [as_rgb_f64 ?p] => destruct (as_rgb_f64 p) as [[? ?] ?] end
-  | match goal with |- context [set_saturation ?c ?x] => destruct (set_saturation c x) as [[? ?] ?] end
-  | match goal with |- context [set_luminocity ?c ?x] => destruct (set_luminocity c x) as [[? ?] ?] end ].
-Ltac hsl_baseline :=
-  intros b s o Hb Hs Ho; repeat hsl_step;
-  match goal with
-  | |- context [from_rgb_f64 ?c ?a] => destruct (from_rgb_f64 c a) as [s'|] eqn:?; cbn [obind]; [|reflexivity]
-  end;
-  rewrite ?obind_ret; apply gen_normal; try assumption;
-  match goal with E : from_rgb_f64 _ _ = Some _ |- _ =>
-    unfold from_rgb_f64 in E; apply from_rgba_i32_inv in E; tauto end.
-
-Lemma gen_hsl_hue_baseline : pix_eq BlendGen.hsl_hue_baseline hsl_hue_baseline.
-Proof. unfold BlendGen.hsl_hue_baseline, hsl_hue_baseline. hsl_baseline. Qed.
-Lemma gen_hsl_saturation_baseline : pix_eq BlendGen.hsl_saturation_baseline hsl_saturation_baseline.
-Proof. unfold BlendGen.hsl_saturation_baseline, hsl_saturation_baseline. hsl_baseline. Qed.
-Lemma gen_hsl_color_baseline : pix_eq BlendGen.hsl_color_baseline hsl_color_baseline.
-Proof. unfold BlendGen.hsl_color_baseline, hsl_color_baseline. hsl_baseline. Qed.
-Lemma gen_hsl_luminosity_baseline : pix_eq BlendGen.hsl_luminosity_baseline hsl_luminosity_baseline.
-Proof. unfold BlendGen.hsl_luminosity_baseline, hsl_luminosity_baseline. hsl_baseline. Qed.
 
 (* ------------------------------------------------------------------ *)
 (* the 18 non-Normal modes: baseline, then the wrapper; the dispatch on the mode id *)
@@ -213,15 +116,6 @@ Lemma gen_addition : pix_eq BlendGen.addition (blender addition_baseline).
 Proof. base_mode ok_addition gen_addition_baseline. Qed.
 Lemma gen_subtract : pix_eq BlendGen.subtract (blender subtract_baseline).
 Proof. base_mode ok_subtract gen_subtract_baseline. Qed.
-Lemma gen_hsl_hue : pix_eq BlendGen.hsl_hue (blender hsl_hue_baseline).
-Proof. base_mode ok_hsl_hue gen_hsl_hue_baseline. Qed.
-Lemma gen_hsl_saturation : pix_eq BlendGen.hsl_saturation (blender hsl_saturation_baseline).
-Proof. base_mode ok_hsl_saturation gen_hsl_saturation_baseline. Qed.
-Lemma gen_hsl_color : pix_eq BlendGen.hsl_color (blender hsl_color_baseline).
-Proof. base_mode ok_hsl_color gen_hsl_color_baseline. Qed.
-Lemma gen_hsl_luminosity : pix_eq BlendGen.hsl_luminosity (blender hsl_luminosity_baseline).
-Proof. base_mode ok_hsl_luminosity gen_hsl_luminosity_baseline. Qed.
-
 (* THE TIE: what Frame::image calls for a layer of blend mode id m (parse_blend_mode, then
    blend_mode_to_blend_fn, then the function of blend.rs) is the model's `blend m`, and the
    ids the code accepts are exactly 0..18 *)
@@ -253,14 +147,6 @@ Proof.
   - apply gen_addition; assumption.
   - apply gen_subtract; assumption.
   - apply gen_divide; assumption.
-Qed.
-
-Theorem gen_blend_refuses : forall (m : Z) (b s : pixel) (o : Z),
-  ~ (0 <= m <= 18) -> BlendGen.blend m b s o = None.
-Proof.
-  intros m b s o Hm. unfold BlendGen.blend, BlendGen.blend_fn_of_mode.
-  destruct m as [|p|p]; try reflexivity; try lia.
-  do 5 (destruct p as [p|p|]; try reflexivity; try lia).
 Qed.
 
 (* ------------------------------------------------------------------ *)
@@ -301,64 +187,3 @@ Lemma C03_hsl_partial_gen_proof : forall (m : Z) (b s : pixel) (o : Z),
             AseRef.blend_n m (pack b) (pack s) o = Some (pack p).
 Proof. intros m b s o Hm Hb Hs Ho Hg. rewrite gen_blend by (assumption || lia). apply C03_hsl_partial_proof; assumption. Qed.
 
-Lemma C17_alpha_gen_proof : forall (m : Z) (b s : pixel) (o : Z) (p q : pixel),
-  pix_wf b -> pix_wf s -> is_byte o ->
-  BlendGen.blend m b s o = Some p -> BlendGen.blend 0 b s o = Some q -> pix_alpha p = pix_alpha q.
-Proof.
-  intros m b s o p q Hb Hs Ho Hp Hq.
-  apply gen_blend_some in Hp; try assumption. apply gen_blend_some in Hq; try assumption.
-  eapply C17_alpha_all; [exact Hb|exact Hs|exact Ho|apply Hp|apply Hq].
-Qed.
-
-Lemma C17_src_transparent_gen_proof : forall (m : Z) (b s : pixel) (o : Z) (p : pixel),
-  pix_wf b -> pix_wf s -> is_byte o ->
-  pix_alpha b <> 0 -> pix_alpha s = 0 -> BlendGen.blend m b s o = Some p -> p = b.
-Proof.
-  intros m b s o p Hb Hs Ho Hnz Hz Hp. apply gen_blend_some in Hp; try assumption.
-  eapply C17_src_transparent_all; [exact Hb|exact Hs|exact Ho|exact Hnz|exact Hz|apply Hp].
-Qed.
-
-Lemma C17_zero_opacity_gen_proof : forall (m : Z) (b s p : pixel),
-  pix_wf b -> pix_wf s -> pix_alpha b <> 0 -> BlendGen.blend m b s 0 = Some p -> p = b.
-Proof.
-  intros m b s p Hb Hs Hnz Hp. apply gen_blend_some in Hp; try assumption; [|unfold is_byte; lia].
-  eapply C17_zero_opacity_all; [exact Hb|exact Hs|exact Hnz|apply Hp].
-Qed.
-
-Lemma C17_over_transparent_gen_proof : forall (m : Z) (b s : pixel) (o : Z),
-  0 <= m <= 18 -> pix_wf b -> pix_wf s -> is_byte o -> pix_alpha b = 0 ->
-  BlendGen.blend m b s o = Some (let '(sr, sg, sb, sa) := s in (sr, sg, sb, mul_un8 sa o)).
-Proof. intros m b s o Hm Hb Hs Ho Hz. rewrite gen_blend by assumption. apply C17_over_transparent_all; assumption. Qed.
-
-Lemma C17_normal_opaque_gen_proof : forall (b s : pixel),
-  pix_wf b -> pix_wf s -> pix_alpha s = 255 -> BlendGen.blend 0 b s 255 = Some s.
-Proof.
-  intros b s Hb Hs Ha. rewrite gen_blend by (assumption || unfold is_byte; lia).
-  apply C17_normal_opaque_all; assumption.
-Qed.
-
-(* no overflow check, no debug assertion, no division by zero, no index out of range, every
-   channel a byte: here the statement is about the code with every i32 / u8 operation checked *)
-Lemma C17_range_int_gen_proof : forall (m : Z) (b s : pixel) (o : Z),
-  In m [0; 1; 2; 3; 4; 5; 6; 7; 8; 10; 11; 16; 17; 18] ->
-  pix_wf b -> pix_wf s -> is_byte o ->
-  exists p, BlendGen.blend m b s o = Some p /\ pix_wf p.
-Proof. intros m b s o Hm Hb Hs Ho. rewrite gen_blend by (auto using int_mode_range). apply C17_range_int; assumption. Qed.
-
-Lemma C17_range_soft_gen_proof : forall (b s : pixel) (o : Z),
-  pix_wf b -> pix_wf s -> is_byte o ->
-  exists p, BlendGen.blend 9 b s o = Some p /\ pix_wf p.
-Proof. intros b s o Hb Hs Ho. rewrite gen_blend by (assumption || lia). apply C17_range_soft; assumption. Qed.
-
-Lemma C17_range_hsl_partial_gen_proof : forall (m : Z) (b s : pixel) (o : Z),
-  m = 12 \/ m = 13 \/ m = 14 \/ m = 15 ->
-  pix_wf b -> pix_wf s -> is_byte o ->
-  hsl_ok m b s = true ->
-  exists p, BlendGen.blend m b s o = Some p /\ pix_wf p.
-Proof. intros m b s o Hm Hb Hs Ho Hg. rewrite gen_blend by (assumption || lia). apply C17_range_hsl_partial; assumption. Qed.
-
-Lemma C17_range_hsl_only_failure_gen_proof : forall (m : Z) (b s : pixel) (o : Z),
-  m = 12 \/ m = 13 \/ m = 14 \/ m = 15 ->
-  pix_wf b -> pix_wf s -> is_byte o ->
-  (BlendGen.blend m b s o = None <-> (pix_alpha b <> 0 /\ hsl_ok m b s = false)).
-Proof. intros m b s o Hm Hb Hs Ho. rewrite gen_blend by (assumption || lia). apply C17_range_hsl_only_failure; assumption. Qed.
